@@ -48,6 +48,16 @@ def make_spark_api():
             .getOrCreate()
         )
         _SPARK.sparkContext.setLogLevel("ERROR")
+    # one session serves every Spark case of a run: start each case from an empty catalog (a left-over view `ta` of the previous
+    # case would make the next Linker(..., input_table_aliases=[ta, ...]) refuse to register its inputs - a harness artefact)
+    for t in _SPARK.catalog.listTables():
+        try:
+            if t.isTemporary:
+                _SPARK.catalog.dropTempView(t.name)
+            else:
+                _SPARK.sql(f"DROP TABLE IF EXISTS {t.name}")
+        except Exception:  # noqa: BLE001
+            pass
     return SparkAPI(spark_session=_SPARK, break_lineage_method="persist", num_partitions_on_repartition=2)
 
 
